@@ -36,7 +36,15 @@ def norm_try(tr, t, depth=0):
         inner = t[2][2]
         if inner[0] == "call" and fn_path(tr.call_term(inner[1])) == TRY_BRANCH:
             x = norm_try(tr, tr.call_args(inner[1])[0], depth + 1)
+            if t[2][1] == "Continue":
+                y = _try_ok_of_built(x)
+                if y is not None:
+                    return y            # `?` applied to an Option / Result value built in this body: its payload
             return ("try_ok" if t[2][1] == "Continue" else "try_break", x)
+    if k == "field":
+        inner2 = norm_try(tr, t[2], depth + 1)
+        if inner2 != t[2]:
+            return simplify(("field", t[1], inner2))
     if k == "call" and fn_path(tr.call_term(t[1])) == FROM_RESIDUAL:
         a = norm_try(tr, tr.call_args(t[1])[0], depth + 1)
         if a[0] == "try_break":
@@ -51,6 +59,24 @@ def norm_try(tr, t, depth=0):
     if k == "await":
         return ("await", norm_try(tr, t[1], depth + 1), t[2])
     return t
+
+
+def _try_ok_of_built(x):
+    """The Continue payload of `X?` when X is (a phi of) Some(v) / Ok(v) / None / Err(e) aggregates built locally."""
+    from prov import INFEASIBLE, _phi
+    x = strip_wrappers(x)
+    if x[0] == "agg" and x[1][0] == "adt" and x[1][1] in ("std::option::Option", "std::result::Result"):
+        if x[1][2] in ("Some", "Ok") and x[2]:
+            return x[2][0]
+        return INFEASIBLE
+    if x[0] == "phi":
+        ms = [_try_ok_of_built(m) if strip_wrappers(m)[0] in ("agg", "phi") else ("try_ok", m) for m in x[1]]
+        if any(m is None for m in ms):
+            return None
+        # members that are not locally built stay `try_ok(member)`; a residual forwarded from an inner `?` cannot continue
+        ms = [m for m in ms if not (m[0] == "try_ok" and strip_wrappers(m[1])[0] in ("try_err", "try_err?"))]
+        return _phi(ms)
+    return None
 
 
 class Site:
@@ -297,12 +323,44 @@ class SendPaths:
         return None
 
     # ---- upvar resolution --------------------------------------------------------------------
+    def lift(self, body, t, depth=0):
+        """(body', t'): the term expressed in the enclosing body that defines it - through closure / coroutine captures
+        (an upvar is the operand the parent put into the closure aggregate) and through fields of a struct value the
+        parent built (`job.timeout` where `job = TimeoutJob { timeout, .. }`)."""
+        t = strip_wrappers(t)
+        if depth > 8:
+            return body, t
+        if t[0] == "upvar" and body.parent:
+            par = self.f.body(body.parent)
+            if par is None:
+                return body, t
+            ptr = tracer_of(par)
+            for blk in par.blocks:
+                for st in blk.stmts:
+                    if st["k"] == "assign" and "agg" in st["rv"] and st["rv"].get("def") == body.defn:
+                        ops = st["rv"]["ops"]
+                        if t[1] < len(ops):
+                            return self.lift(par, ptr.norm(ptr.operand(ops[t[1]])), depth + 1)
+            return body, t
+        if t[0] == "field":
+            b2, inner = self.lift(body, t[2], depth + 1)
+            inner = strip_wrappers(inner)
+            s2 = simplify(("field", t[1], inner))
+            if s2 != ("field", t[1], inner):
+                return self.lift(b2, s2, depth + 1)
+            return b2, ("field", t[1], inner)
+        return body, t
+
     def resolve_to_root_param(self, body, t, depth=0):
         """Follow a term through closure/coroutine captures up to a parameter of the root fn.
         Returns ("param", root_def, index) | ("clone_of_param", root_def, index) | other term."""
         t = strip_wrappers(t)
         if depth > 6:
             return t
+        if t[0] == "field":
+            b2, t2 = self.lift(body, t)
+            if (b2 is not body or t2 != t) and t2[0] != "field":
+                return self.resolve_to_root_param(b2, t2, depth + 1)
         if t[0] == "param" and body.parent is None:
             return ("param", body.defn, t[1])
         if t[0] == "upvar" and body.parent:
@@ -332,6 +390,7 @@ class SendPaths:
     def is_self_identity(self, body, t):
         """t denotes `self.identity()` of the root function's self (directly or through a
         constructor helper that was summarised)."""
+        body, t = self.lift(body, t)      # `let identity = self.identity();` captured by a closure / carried in a struct
         t = strip_wrappers(t)
         if t[0] == "call" and t[2] in ("actor_ref::ActorRef::<T>::identity",):
             tr = tracer_of(body)
